@@ -237,6 +237,11 @@ def runSW (deg12 : Bool) (op : String) (args : List String) (impl : String) : Op
     | "mulbya", [e] =>
       let e ← io.parse e
       some (io.str (c.mulByA e), vs impl (io.str (c.a * e)))
+    -- constants: `Projective::zero()` / `default()`; `AffineRepr::zero()` / `identity()` / `Affine::default()`
+    | "const", [w] =>
+      if w == "pzero" || w == "pdefault" then some (sJac io SW.Jac.zero, judgeJac io c impl none)
+      else if w == "azero" || w == "aident" || w == "adefault" then some ("inf", vs impl "inf")
+      else none
     | _, _ => none
   | _ => none
 
@@ -324,6 +329,12 @@ def runTE (op : String) (args : List String) (impl : String) : Option (String ×
     | "mulbya", [e] =>
       let e ← io.parse e
       some (io.str (c.mulByA e), vs impl (io.str (c.a * e)))
+    -- constants: `Projective::zero()` / `default()`; `AffineRepr::zero()` / `identity()` / `Affine::default()`
+    | "const", [w] =>
+      if w == "pzero" || w == "pdefault" then some (sExt io TE.Ext.zero, judgeExt io c impl ((0 : F), (1 : F)))
+      else if w == "azero" || w == "aident" || w == "adefault" then
+        some (sPt2 io ((0 : F), (1 : F)), vs impl (sPt2 io ((0 : F), (1 : F))))
+      else none
     | _, _ => none
   | _ => none
 
